@@ -43,7 +43,44 @@ impl Component for DF {
     type Storage = FlaggedStorage<Self, VecStorage<Self>>;
 }
 
-const RES: &[&str] = &["Entities", "A", "B", "C", "Z", "F", "Lazy"];
+/// a user-defined, non-generic storage shared by two component types
+#[derive(Default)]
+pub struct U32Store(std::collections::HashMap<u32, u32>);
+#[repr(transparent)]
+pub struct DX(u32);
+#[repr(transparent)]
+pub struct DY(u32);
+macro_rules! u32store_for {
+    ($t:ident) => {
+        impl Component for $t {
+            type Storage = U32Store;
+        }
+        impl specs::storage::UnprotectedStorage<$t> for U32Store {
+            type AccessMut<'a> = &'a mut $t;
+            unsafe fn clean<B: specs::hibitset::BitSetLike>(&mut self, _has: B) {
+                self.0.clear();
+            }
+            unsafe fn get(&self, id: u32) -> &$t {
+                // SAFETY: $t is repr(transparent) over u32
+                unsafe { &*(self.0.get(&id).unwrap() as *const u32 as *const $t) }
+            }
+            unsafe fn get_mut(&mut self, id: u32) -> &mut $t {
+                // SAFETY: $t is repr(transparent) over u32
+                unsafe { &mut *(self.0.get_mut(&id).unwrap() as *mut u32 as *mut $t) }
+            }
+            unsafe fn insert(&mut self, id: u32, v: $t) {
+                self.0.insert(id, v.0);
+            }
+            unsafe fn remove(&mut self, id: u32) -> $t {
+                $t(self.0.remove(&id).unwrap())
+            }
+        }
+    };
+}
+u32store_for!(DX);
+u32store_for!(DY);
+
+const RES: &[&str] = &["Entities", "A", "B", "C", "Z", "F", "Lazy", "X", "Y"];
 
 fn res_ids() -> Vec<(ResourceId, &'static str)> {
     vec![
@@ -54,6 +91,8 @@ fn res_ids() -> Vec<(ResourceId, &'static str)> {
         (ResourceId::new::<MaskedStorage<DZ>>(), "Z"),
         (ResourceId::new::<MaskedStorage<DF>>(), "F"),
         (ResourceId::new::<LazyUpdate>(), "Lazy"),
+        (ResourceId::new::<MaskedStorage<DX>>(), "X"),
+        (ResourceId::new::<MaskedStorage<DY>>(), "Y"),
     ]
 }
 
@@ -74,6 +113,8 @@ fn new_world() -> World {
     w.register::<DC>();
     w.register::<DZ>();
     w.register::<DF>();
+    w.register::<DX>();
+    w.register::<DY>();
     w
 }
 
@@ -105,6 +146,8 @@ fn probe(world: &World) -> (Vec<String>, Vec<String>) {
     p!(MaskedStorage<DZ>, "Z");
     p!(MaskedStorage<DF>, "F");
     p!(LazyUpdate, "Lazy");
+    p!(MaskedStorage<DX>, "X");
+    p!(MaskedStorage<DY>, "Y");
     (shared, excl)
 }
 
@@ -131,6 +174,10 @@ fn table(tid: &Value) -> Value {
     row!("WriteStorage<C:HashMapStorage>", WriteStorage<DC>);
     row!("WriteStorage<Z:NullStorage>", WriteStorage<DZ>);
     row!("WriteStorage<F:FlaggedStorage>", WriteStorage<DF>);
+    row!("WriteStorage<X:custom shared storage type>", WriteStorage<DX>);
+    row!("WriteStorage<Y:custom shared storage type>", WriteStorage<DY>);
+    row!("ReadStorage<X:custom shared storage type>", ReadStorage<DX>);
+    row!("ReadStorage<Y:custom shared storage type>", ReadStorage<DY>);
     row!("Entities", Entities);
     row!("Read<LazyUpdate>", Read<LazyUpdate>);
     row!("(Entities, ReadStorage<A>, WriteStorage<B>)", (Entities, ReadStorage<DA>, WriteStorage<DB>));
@@ -232,13 +279,17 @@ shape!(S13, (ReadStorage<'a, DF>,), ["Entities", "F"], []);
 shape!(S14, (Read<'a, LazyUpdate>, WriteStorage<'a, DZ>), ["Entities", "Lazy"], ["Z"]);
 shape!(S15, (WriteStorage<'a, DA>, WriteStorage<'a, DB>, WriteStorage<'a, DC>), ["Entities"], ["A", "B", "C"]);
 
-const NSHAPES: usize = 16;
+shape!(S16, (WriteStorage<'a, DX>,), ["Entities"], ["X"]);
+shape!(S17, (WriteStorage<'a, DY>, ReadStorage<'a, DX>), ["Entities", "X"], ["Y"]);
+shape!(S18, (ReadStorage<'a, DY>,), ["Entities", "Y"], []);
+
+const NSHAPES: usize = 19;
 
 fn rw_of(shape: usize) -> (Vec<&'static str>, Vec<&'static str>) {
     match shape {
         0 => S0::rw(), 1 => S1::rw(), 2 => S2::rw(), 3 => S3::rw(), 4 => S4::rw(), 5 => S5::rw(),
         6 => S6::rw(), 7 => S7::rw(), 8 => S8::rw(), 9 => S9::rw(), 10 => S10::rw(), 11 => S11::rw(),
-        12 => S12::rw(), 13 => S13::rw(), 14 => S14::rw(), _ => S15::rw(),
+        12 => S12::rw(), 13 => S13::rw(), 14 => S14::rw(), 15 => S15::rw(), 16 => S16::rw(), 17 => S17::rw(), _ => S18::rw(),
     }
 }
 
@@ -283,7 +334,7 @@ fn dispatch(script: &Value) -> Value {
             match shape {
                 0 => add!(S0), 1 => add!(S1), 2 => add!(S2), 3 => add!(S3), 4 => add!(S4), 5 => add!(S5),
                 6 => add!(S6), 7 => add!(S7), 8 => add!(S8), 9 => add!(S9), 10 => add!(S10), 11 => add!(S11),
-                12 => add!(S12), 13 => add!(S13), 14 => add!(S14), _ => add!(S15),
+                12 => add!(S12), 13 => add!(S13), 14 => add!(S14), 15 => add!(S15), 16 => add!(S16), 17 => add!(S17), _ => add!(S18),
             }
         }
         if script["async"].as_bool().unwrap_or(false) {
